@@ -102,6 +102,9 @@ func run(line string) (out string) {
 			out = "panic"
 		}
 	}()
+	if msg, bad := heldChanged(); bad {
+		return msg
+	}
 	f := strings.Split(line, " ")
 	switch f[0] {
 	case "decode":
